@@ -1,13 +1,16 @@
-(* Extraction of the sm2/p256.go model (EC/P256Model.v, instance over the generated constants) and of
+(* Extraction of the sm2/p256.go model (EC/P256Model.v, instance over the generated constants), of the limb layer
+   (EC/LimbModel.v over the mechanically generated Gen/P256Limbs.v) and of
    the affine specification (EC/ECAffine.v, EC/SM2Curve.v) for the correspondence runner ocaml/ec.
    Directives: ExtrOcamlBasic (bool, option, unit, list, prod, sumbool, sumor, andb, orb) and
    ExtrOcamlZBigInt (positive, N, Z and their arithmetic mapped to zarith's Big_int_Z); nothing else.
    nat stays inductive. *)
 From Coq Require Import Extraction ExtrOcamlBasic ExtrOcamlZBigInt ZArith NArith List.
-From GmsmVerif Require Import Lib.Outcome EC.ECAffine EC.SM2Curve EC.P256Model.
+From GmsmVerif Require Import Lib.Outcome EC.ECAffine EC.SM2Curve EC.P256Model EC.LimbModel.
 Extraction Language OCaml.
 Extraction "ec_model.ml"
   Params_model IsOnCurve_model Add_model Double_model ScalarMult_model ScalarBaseMult_model GenerateKey_model
   sm2GenrateWNaf_model fe_of_limbs_m Mul_model Square_model AddFe_model SubFe_model FromBig_model
   ReduceDegree_model PointDouble_model PointAddMixed_model PointAdd_model PointSub_model
-  sm2_add sm2_double sm2_mul sm2_base_mul sm2_on_curve sm2_valid encode_point decode_point.
+  sm2_add sm2_double sm2_mul sm2_base_mul sm2_on_curve sm2_valid encode_point decode_point
+  sm2P256Add_limbs sm2P256Sub_limbs sm2P256Mul_limbs sm2P256Square_limbs sm2P256ReduceDegree_limbs
+  sm2P256FromBig_limbs sm2P256ToBig_limbs.
